@@ -1,7 +1,128 @@
-(* props/C09.v — placeholder while the invariance lemmas are being closed. *)
-From Coq Require Import List NArith ZArith String.
+(* props/C09.v — parameter values in a Job carry their declared type.
+
+   Predicates: Glue.v ([conforms_job], [conforms_task]: INT = Python int() numeral, FLOAT = finite
+   Decimal numeral, STRING / PATH task values at most 1024 characters).
+   Models the theorems are stated against: JobParams.v ([check_constraints] = _check_constraints of
+   the four Job*ParameterDefinition classes, called by create_job on every value), Validators.v
+   ([post_hook] of the job-side target classes Int/FloatRangeListTaskParameterDefinition), Parse.v
+   on Generated.schema (structural kind of RangeListTaskParameterDefinition.range), RangeExpr.v
+   ([elems] = the integers of an IntRangeExpr) and NumPrint.v ([print_Z] = str(int)).
+   Proofs: GlueProofs.v. *)
+From Coq Require Import List NArith ZArith Bool String.
 Import ListNotations.
-Require Import OJD.Base OJD.Json OJD.Schema OJD.Generated.
+Require Import OJD.Base OJD.Lexer OJD.Json OJD.Schema OJD.Generated OJD.Charsets OJD.Numerals OJD.NumPrint
+               OJD.CreateJob OJD.Parse OJD.Validators OJD.JobParams OJD.JobParamsSpec OJD.RangeExpr
+               OJD.Glue OJD.GlueProofs.
 Local Open Scope string_scope.
-Example C09_schema_has_root : match lookup_cls Generated.schema "JobTemplate" with Some _ => True | None => False end.
-Proof. vm_compute. exact I. Qed.
+
+(* job parameter values: a value that passes _check_constraints has the declared type.  No premise
+   on the definition (in particular: a FLOAT definition WITHOUT bounds rejects NaN / Infinity). *)
+Theorem C09_job_params : forall d v,
+  check_constraints false d v = Ok tt -> conforms_job (ptype_text (ptyp d)) v = true.
+Proof. exact check_conforms_job. Qed.
+Print Assumptions C09_job_params.
+
+(* the same from C10's declarative side: "the value satisfies its definition" includes the type *)
+Theorem C09_job_params_sat : forall d v, sat d v -> conforms_job (ptype_text (ptyp d)) v = true.
+Proof. exact sat_conforms_job. Qed.
+Print Assumptions C09_job_params_sat.
+
+(* job-side range lists of INT / FLOAT task parameters (values AFTER substitution of references):
+   the target class's validator accepts only conforming items *)
+Theorem C09_range_list_int : forall classify raw fs,
+  post_hook classify "IntRangeListTaskParameterDefinition" raw fs = true ->
+  forall it, In it (mitems (fget "range" fs)) -> conforms_task $"INT" (mstr it) = true.
+Proof. exact post_int_range_list. Qed.
+Print Assumptions C09_range_list_int.
+
+Theorem C09_range_list_float : forall classify raw fs,
+  post_hook classify "FloatRangeListTaskParameterDefinition" raw fs = true ->
+  forall it, In it (mitems (fget "range" fs)) -> conforms_task $"FLOAT" (mstr it) = true.
+Proof. exact post_float_range_list. Qed.
+Print Assumptions C09_range_list_float.
+
+(* STRING / PATH: the target class RangeListTaskParameterDefinition has, in the live schema, the
+   item kind [range_item_kind] = lax constr(max_length=1024) ... *)
+Theorem C09_range_list_kind :
+  match lookup_cls Generated.schema "RangeListTaskParameterDefinition" with
+  | Some c => map (fun fl => (f_name fl, f_shape fl, f_kind fl)) (c_fields c)
+  | None => []
+  end
+  = [("type", Single, KEnum ["INT"; "FLOAT"; "STRING"; "PATH"]);
+     ("range", ListOf None None, KStr false (Some 0%N) (Some 1024%N) CS_any)].
+Proof. exact range_list_kind. Qed.
+Print Assumptions C09_range_list_kind.
+
+(* ... and every item that kind accepts (for any schema, hooks, fuel and raw value) is stored as a
+   string of at most 1024 characters *)
+Theorem C09_range_list_string : forall SC classify pre post fuel raw m,
+  parse_kind SC classify pre post fuel (KStr false (Some 0%N) (Some 1024%N) CS_any) raw = Ok m ->
+  exists t, m = MStr t /\ conforms_task $"STRING" t = true /\ conforms_task $"PATH" t = true.
+Proof. exact range_item_len. Qed.
+Print Assumptions C09_range_list_string.
+
+(* range expressions: every enumerated value is str(z) for an integer z of the expression, and
+   str(z) is an integer numeral, for every z *)
+Theorem C09_range_expr : forall e v, In v (range_values e) ->
+  (exists z, In z (elems e) /\ v = print_Z z) /\ conforms_task $"INT" v = true.
+Proof. exact range_values_conform. Qed.
+Print Assumptions C09_range_expr.
+
+Theorem C09_print_Z_numeral : forall z, is_int_numeral (print_Z z) = true.
+Proof. exact print_Z_int_numeral. Qed.
+Print Assumptions C09_print_Z_numeral.
+
+(* literal int / Decimal items of a range list are stored job-side as str(int) / str(Decimal):
+   these conform as well *)
+Theorem C09_literal_items :
+  (forall z, conforms_task $"INT" (mstr (coerce_range_item (MInt z))) = true) /\
+  (forall m e, conforms_task $"FLOAT" (mstr (coerce_range_item (MDec m e))) = true).
+Proof. exact coerce_item_conforms. Qed.
+Print Assumptions C09_literal_items.
+
+(* C09_end_to_end (every value of every enumerated task parameter set of a created Job conforms)
+   is the composition C05 (the job-side range is the resolved template range) + the three
+   theorems above (each target class validates its items; create_job_verdict = Ok true requires
+   every node to pass its own class, Export.nodes_ok) + C07_typed (the iterator hands out exactly
+   the leaf's values).  It is not restated as one Coq theorem: the composition is checked by the
+   correspondence harness c09.py on created Jobs. *)
+
+(* ------------------------------------------------------------------ non-vacuity *)
+Local Open Scope N_scope.
+Definition nP : str := [80].
+Definition d_flt : pdef := mkDef nP FLOAT None None None None None None None None None.
+Definition d_int : pdef := mkDef nP INT (Some (mkNum 0 0)) None None None None None None None None.
+
+(* hypotheses met; and the historical counterexamples (FLOAT without constraints given "NaN" /
+   "Infinity") are rejected by today's check *)
+Example C09_job_params_nonvacuous :
+  check_constraints false d_flt [49; 46; 53] = Ok tt /\                 (* "1.5" *)
+  check_constraints false d_int [32; 55; 32] = Ok tt /\                 (* " 7 " *)
+  check_constraints false d_flt [78; 97; 78] = Raise ValueError /\      (* "NaN" *)
+  check_constraints false d_flt [73;110;102;105;110;105;116;121] = Raise ValueError /\  (* "Infinity" *)
+  conforms_job $"FLOAT" [78; 97; 78] = false /\
+  conforms_job $"INT" [49; 46; 53] = false.
+Proof. vm_compute. repeat split. Qed.
+
+Example C09_range_list_nonvacuous :
+  post_hook ascii_class "IntRangeListTaskParameterDefinition" JNull
+            [("type", MStr $"INT"); ("range", MList [MStr [49]; MStr [45; 50]])] = true /\
+  post_hook ascii_class "IntRangeListTaskParameterDefinition" JNull
+            [("type", MStr $"INT"); ("range", MList [MStr [97; 98; 99]])] = false /\
+  post_hook ascii_class "FloatRangeListTaskParameterDefinition" JNull
+            [("type", MStr $"FLOAT"); ("range", MList [MStr [49; 46; 53]])] = true /\
+  post_hook ascii_class "FloatRangeListTaskParameterDefinition" JNull
+            [("type", MStr $"FLOAT"); ("range", MList [MStr [78; 97; 78]])] = false.
+Proof. vm_compute. repeat split. Qed.
+
+Example C09_range_list_string_nonvacuous :
+  parse_kind Generated.schema ascii_class (fun _ _ => true) (fun _ _ _ => true) 1
+             (KStr false (Some 0) (Some 1024) CS_any) (JStr [120; 121]) = Ok (MStr [120; 121]) /\
+  parse_kind Generated.schema ascii_class (fun _ _ => true) (fun _ _ _ => true) 1
+             (KStr false (Some 0) (Some 1024) CS_any) (JStr (repeat 120 1025)) = Raise ValueError.
+Proof. vm_compute. split; reflexivity. Qed.
+
+Example C09_range_expr_nonvacuous :
+  exists e, from_str false false ascii_class [49; 45; 53; 58; 50] = Ok e /\     (* "1-5:2" *)
+            range_values e = [[49]; [51]; [53]].
+Proof. eexists. split; vm_compute; reflexivity. Qed.
